@@ -115,7 +115,7 @@ def plant(lines, placement):
 placement_names = dict(IDS)
 
 
-def placements_for(nlines, vlines_a, vlines_b, rnd, count):
+def placements_for(nlines, vlines_a, vlines_b, rnd, count, multi=None):
     """seeded placements built from the tag-line sequences the specification distinguishes"""
     out = []
 
@@ -143,7 +143,12 @@ def placements_for(nlines, vlines_a, vlines_b, rnd, count):
         ("next_then_off", [(la, "next", ("a",)), (la, "off", ("b",)), (min(nlines, la + 3), "on", ("b",))]),
     ]
     rnd.shuffle(cands)
-    keep = [c for c in cands if c[0] == "wrap"] + [c for c in cands if c[0] != "wrap"]
+    first = [c for c in cands if c[0] == "wrap"]
+    if multi is not None:
+        lo, hi = multi  # a violation of rule a that spans several lines: tags on its interior lines only
+        first.append(("next_inside", [(lo, "next", ("a",))]))
+        first.append(("off_inside", [(lo, "off", ("a",)), (hi - 1, "on", ("a",))]))
+    keep = first + [c for c in cands if c[0] != "wrap"]
     return keep[:count]
 
 
@@ -157,6 +162,12 @@ def report_records(job, first_id):
             raw = f.read()
         if "vsg_" in raw or "\r" in raw:
             continue
+        # tags planted inside a region a synthesis pragma switches off are plain ignored text, not comments: leave such files alone
+        import variants
+        import vlex
+
+        if variants._frozen_file(vlex.lex(raw)):
+            continue
         lines = raw.split("\n")
         if lines and lines[-1] == "":
             lines = lines[:-1]
@@ -168,10 +179,17 @@ def report_records(job, first_id):
         for v in base["viol"]:
             byrule.setdefault(v["rule"], []).append(v["line"])
         top = sorted(byrule, key=lambda r: (-len(byrule[r]), r))
+        # prefer, for rule a, a rule with a violation that spans at least three lines (tags can then sit on interior lines)
+        multis = sorted([v for v in base["viol"] if v["hi"] - v["lo"] >= 2], key=lambda v: (v["rule"], v["lo"]))
+        multi = None
+        if multis:
+            mv = multis[rnd.randrange(len(multis))]
+            multi = (mv["lo"], mv["hi"])
+            top = [mv["rule"]] + [r for r in top if r != mv["rule"]]
         ra = top[0]
         rb = top[1] if len(top) > 1 else RB
         placement_names = {"a": ra, "b": rb}
-        for pname, placement in placements_for(len(lines), byrule.get(ra, []), byrule.get(rb, []), rnd, job.get("per_file", 4)):
+        for pname, placement in placements_for(len(lines), byrule.get(ra, []), byrule.get(rb, []), rnd, job.get("per_file", 4), multi):
             tagged, neutral, kinds = plant(lines, placement)
             rt = run_check("\n".join(tagged) + "\n", ["-ap"], job["work"], "tagged.vhd")
             rn = run_check("\n".join(neutral) + "\n", ["-ap"], job["work"], "neutral.vhd")
